@@ -117,7 +117,8 @@ def make_table(scratch):
             continue
         t = ln.split("\t")
         rows.append(dict(kind=t[0], file=t[1], line=int(t[2]), func=t[3], a=t[4], b=t[5], access=t[6], atomic=t[7] == "true",
-                         fresh=t[8] == "true", must=t[9], may=t[10], released=t[11], condlock=t[12], ctxs=t[13]))
+                         fresh=t[8] == "true", must=t[9], may=t[10], released=t[11], condlock=t[12], ctxs=t[13],
+                         op=t[14] if len(t) > 14 else "", sec=t[15] if len(t) > 15 else "", root=t[16] if len(t) > 16 else ""))
     return True, out, rows
 
 
@@ -143,6 +144,56 @@ Open Scope string_scope.
 """
 
 
+def parse_coq_terms(out):
+    """every `= <term> : <type>` printed by Eval, parsed into Python (lists, tuples, str, int, bool, None/Some x)"""
+    res = []
+    for m in re.finditer(r"^\s*=\s(.*?)\n\s*:\s", out, re.S | re.M):
+        txt = m.group(1)
+        toks = re.findall(r'"(?:[^"]|"")*"|\d+|[A-Za-z_][\w.\']*|[\[\]();,]', txt)
+        pos = [0]
+
+        def term():
+            t = toks[pos[0]]
+            pos[0] += 1
+            if t == "[":
+                xs = []
+                if toks[pos[0]] == "]":
+                    pos[0] += 1
+                    return xs
+                while True:
+                    xs.append(term())
+                    t2 = toks[pos[0]]
+                    pos[0] += 1
+                    if t2 == "]":
+                        return xs
+            if t == "(":
+                xs = []
+                while True:
+                    xs.append(term())
+                    t2 = toks[pos[0]]
+                    pos[0] += 1
+                    if t2 == ")":
+                        return tuple(xs) if len(xs) > 1 else xs[0]
+            if t.startswith('"'):
+                return t[1:-1].replace('""', '"')
+            if t.isdigit():
+                return int(t)
+            if t == "true":
+                return True
+            if t == "false":
+                return False
+            if t == "None":
+                return None
+            if t == "Some":
+                return term()
+            return t
+        try:
+            res.append(term())
+        except IndexError:
+            res.append(None)
+    return res
+
+
 def compile_instance(scratch, kn_triples):
     """Compile LockFacts.v + Instance.v. Returns dict(ok, log, bad={sites:[idx], acqs:[idx], blks:[idx], unks:[idx], order:bool}, instance_ok)"""
     gen = os.path.join(scratch, "gen")
@@ -153,16 +204,21 @@ def compile_instance(scratch, kn_triples):
                   "Definition checked_sites := filter (fun s => negb (is_known s)) accesses.\n")
     inst = HEADER + known_def + """
 Theorem instance_race_free : forallb site_ok checked_sites = true.
-Proof. vm_compute. reflexivity. Qed.
+Proof. vm_cast_no_check (@eq_refl bool true). Qed.
 Theorem instance_acquire_ok : forallb acquire_ok acquires = true.
-Proof. vm_compute. reflexivity. Qed.
+Proof. vm_cast_no_check (@eq_refl bool true). Qed.
 Theorem instance_block_ok : forallb block_ok blocks = true.
-Proof. vm_compute. reflexivity. Qed.
+Proof. vm_cast_no_check (@eq_refl bool true). Qed.
 Theorem instance_order : order_acyclic acquires = true.
-Proof. vm_compute. reflexivity. Qed.
+Proof. vm_cast_no_check (@eq_refl bool true). Qed.
 Theorem instance_no_unknown : forallb unknown_ok unknowns = true.
-Proof. vm_compute. reflexivity. Qed.
+Proof. vm_cast_no_check (@eq_refl bool true). Qed.
+Theorem instance_groups : forallb (group_ok scoped) groups = true.
+Proof. vm_cast_no_check (@eq_refl bool true). Qed.
+Theorem instance_counters : forallb counter_ok accesses = true.
+Proof. vm_cast_no_check (@eq_refl bool true). Qed.
 Print Assumptions instance_race_free.
+Print Assumptions instance_groups.
 """
     diag = HEADER + """
 Fixpoint bad_idx {A} (ok : A -> bool) (l : list A) (i : nat) : list nat :=
@@ -177,29 +233,66 @@ Eval vm_compute in d_acqs.
 Eval vm_compute in d_blks.
 Eval vm_compute in d_unks.
 Eval vm_compute in d_order.
+Definition d_counters := bad_idx counter_ok accesses 0.
+Eval vm_compute in d_counters.
+Definition is_grow (g : group) (r : srow) : bool := String.eqb (r_root r) (g_fn g) && relevant g r.
+Fixpoint idx_where {A} (p : A -> bool) (l : list A) (i : nat) : list nat :=
+  match l with [] => [] | x :: r => if p x then i :: idx_where p r (S i) else idx_where p r (S i) end.
+Definition d_group (g : group) :=
+  let marked := map (fun r => (is_grow g r, r)) scoped in
+  let rows := map snd (filter fst marked) in
+  let id := first_id (g_lock g) rows in
+  let bad := match id with
+             | None => idx_where fst marked 0
+             | Some s => idx_where (fun p => fst p && negb (row_ok g s (snd p))) marked 0
+             end in
+  let missing := match id with
+                 | None => g_members g
+                 | Some s => filter (fun m => negb (existsb (fun r => member_matches m r && row_in_section (g_lock g) s r) rows)) (g_members g)
+                 end in
+  let ok := match id with
+            | None => false
+            | Some s => is_nil bad && is_nil missing
+            end in
+  (g_name g, g_props g, g_fn g, g_lock g, ok, id, length rows, bad, map (fun m => (m_type m, m_field m)) missing, g_why g).
+Definition d_groups := map d_group groups.
+Eval vm_compute in d_groups.
+Definition d_counter_meta := map (fun c => match c with (t, f, ops, props, why) => (t, f, props, why) end) counters.
+Eval vm_compute in d_counter_meta.
 """
     open(os.path.join(gen, "Instance.v"), "w").write(inst)
     open(os.path.join(gen, "Diag.v"), "w").write(diag)
     res = dict(ok=False, log="", bad=None, instance_ok=False)
+    def par(files):
+        ps = [subprocess.Popen(["timeout", "900", "coqc", "-Q", C.COQ, "GV", "-Q", ".", "", f], cwd=gen, stdout=subprocess.PIPE,
+                               stderr=subprocess.STDOUT, text=True) for f in files]
+        outs = [p.communicate()[0] for p in ps]
+        return [(p.returncode, o) for p, o in zip(ps, outs)]
     with C.Lock("coq.lock"):
+        rc, out = C.sh(["timeout", "900", "coqc", "-Q", C.COQ, "GV", "-Q", ".", "", "LockFactsStr.v"], cwd=gen)
+        if rc != 0:
+            res["log"] = "LockFactsStr.v does not compile:\n" + out[-3000:]
+            return res
+        r = par(["LockFactsA.v", "LockFactsS.v"])
+        if any(rc for rc, _ in r):
+            res["log"] = "the generated tables do not compile against coq/Locks/Tables.v:\n" + "\n".join(o for _, o in r)[-3000:]
+            return res
         rc, out = C.sh(["timeout", "900", "coqc", "-Q", C.COQ, "GV", "-Q", ".", "", "LockFacts.v"], cwd=gen)
         if rc != 0:
-            res["log"] = "LockFacts.v does not compile against coq/Locks/Tables.v:\n" + out[-3000:]
+            res["log"] = "LockFacts.v does not compile:\n" + out[-3000:]
             return res
-        rc, out = C.sh(["timeout", "900", "coqc", "-Q", C.COQ, "GV", "-Q", ".", "", "Diag.v"], cwd=gen)
-        rc2, out2 = C.sh(["timeout", "900", "coqc", "-Q", C.COQ, "GV", "-Q", ".", "", "Instance.v"], cwd=gen)
+        (rc, out), (rc2, out2) = par(["Diag.v", "Instance.v"])
     if rc != 0:
         res["log"] = "Diag.v failed:\n" + out[-3000:]
         return res
-    vals = re.findall(r"=\s*(\[[^\]]*\]|true|false)\s*:\s*(?:list nat|bool)", out.replace("\n", " "))
-    if len(vals) != 5:
+    vals = parse_coq_terms(out)
+    if len(vals) != 8 or any(v is None for v in vals[:6]):
         res["log"] = "cannot parse Diag.v output:\n" + out[-3000:]
         return res
-
-    def idx(v):
-        v = v.strip("[]").strip()
-        return [int(x) for x in re.split(r"[;\s]+", v) if x.strip().isdigit()] if v else []
-    res["bad"] = dict(sites=idx(vals[0]), acqs=idx(vals[1]), blks=idx(vals[2]), unks=idx(vals[3]), order=(vals[4] == "true"))
+    res["bad"] = dict(sites=vals[0], acqs=vals[1], blks=vals[2], unks=vals[3], order=vals[4], counters=vals[5])
+    res["groups"] = [dict(name=g[0], props=g[1], fn=g[2], lock=g[3], ok=g[4], section=g[5], rows=g[6], bad=g[7],
+                          missing=["%s.%s" % m for m in g[8]], why=g[9]) for g in vals[6]]
+    res["counters"] = [dict(struct=c[0], field=c[1], props=c[2], why=c[3]) for c in vals[7]]
     res["ok"] = True
     res["instance_ok"] = rc2 == 0
     res["log"] = out2[-3000:]
@@ -278,7 +371,11 @@ def row_text(r):
     if r["kind"] == "access":
         return "%s:%d %s: %s of %s.%s%s, certainly held [%s], possibly held [%s], contexts {%s}" % (
             r["file"], r["line"], r["func"], {"read": "read", "write": "write", "cread": "container read", "cwrite": "container write"}[r["access"]],
-            r["a"], r["b"], (" (atomic)" if r["atomic"] else "") + (" (object still fresh)" if r["fresh"] else ""), r["must"], r["may"], r["ctxs"])
+            r["a"], r["b"], ((" (atomic %s)" % r.get("op", "")) if r["atomic"] else "") + (" (object still fresh)" if r["fresh"] else ""), r["must"], r["may"], r["ctxs"])
+    if r["kind"] == "scoped":
+        return "%s:%d %s (within %s): %s of %s.%s%s, certainly held [%s], open sections [%s]" % (
+            r["file"], r["line"], r["func"], r["root"], {"read": "read", "write": "write", "cread": "container read", "cwrite": "container write"}[r["access"]],
+            r["a"], r["b"], (" (atomic %s)" % r["op"]) if r["op"] else "", r["must"], r["sec"])
     if r["kind"] == "acquire":
         return "%s:%d %s: acquires %s (%s) while possibly holding [%s]" % (r["file"], r["line"], r["func"], r["a"], r["b"], r["may"])
     if r["kind"] == "block":
@@ -287,14 +384,24 @@ def row_text(r):
 
 
 # ----------------------------------------------------------------------------
+_CACHE = {}
+
+
 def analyse(scratch, known):
-    """common part of C10 and the C06 interleaving check: table + instance theorems.
-    Returns dict with rows by kind, failing rows, logs."""
+    """common part of C10, the C06 interleaving check and the atomicity check: ONE translator run and one
+    Coq evaluation per scratch directory (cached in this process)."""
+    key = (os.path.abspath(scratch), C.REPO, json.dumps(sorted(known_rows(known).keys())))
+    if key not in _CACHE:
+        _CACHE[key] = _analyse(scratch, known)
+    return _CACHE[key]
+
+
+def _analyse(scratch, known):
     t0 = time.time()
     okt, tlog = build_translator()
     okc, clog = build_coq() if okt else (False, "")
     A = dict(ok=False, log="", rows=[], fail_sites=[], fail_acqs=[], fail_blks=[], fail_unks=[], order_ok=True,
-             instance_ok=False, known_hit={}, t_table=0.0, t_coq=0.0)
+             instance_ok=False, known_hit={}, t_table=0.0, t_coq=0.0, fail_counters=[], groups=[], counters=[])
     if not okt:
         A["log"] = "translator does not build:\n" + tlog[-3000:]
         return A
@@ -314,9 +421,14 @@ def analyse(scratch, known):
     if not R["ok"]:
         A["log"] = R["log"]
         return A
-    by = {k: [r for r in rows if r["kind"] == k] for k in ("access", "acquire", "block", "unknown")}
+    by = {k: [r for r in rows if r["kind"] == k] for k in ("access", "acquire", "block", "unknown", "scoped")}
     A["by"] = by
     bad = R["bad"]
+    A["fail_counters"] = [by["access"][i] for i in bad["counters"]]
+    A["groups"] = R["groups"]
+    for g in A["groups"]:
+        g["bad_rows"] = [by["scoped"][i] for i in g["bad"]]
+    A["counters"] = R["counters"]
     for i in bad["sites"]:
         r = by["access"][i]
         k = kn.get((r["a"], r["b"], r["func"]))
@@ -348,6 +460,51 @@ def interleaving_check(scratch, known=None):
           "theorems": ["C06_table_no_wait_cycle", "C06_table_blocked_holds_nothing", "C06_table_waiter_reaches_runnable", "C06_order_acyclic"],
           "not_covered": "scheduler/RWMutex fairness (writer starvation), the 100 ms ticker, blocking inside callees accepted as non-blocking by Policy.v"}
     return (not fail and A["order_ok"]), fail, ev
+
+
+def group_text(g):
+    """what fails in a group, as text"""
+    out = []
+    if g["section"] is None:
+        out.append("group %s (%s, lock %s): no member access runs inside exactly one section of the lock" % (g["name"], g["fn"], g["lock"]))
+    for r in g["bad_rows"]:
+        out.append("group %s: expected section %s of %s, but %s" % (g["name"], g["section"], g["lock"], row_text(r)))
+    for m in g["missing"]:
+        out.append("group %s: no access to %s inside section %s of %s within %s" % (g["name"], m, g["section"], g["lock"], g["fn"]))
+    return out
+
+
+def atomicity_check(scratch, known=None):
+    """Atomicity granularity of the models, decided on the table regenerated from the working tree:
+    every group of Policy.groups runs inside ONE critical-section instance, every counter of Policy.counters is only
+    touched by its allowed sync/atomic operations.  Returns {pid: (ok, failing_rows_text, evidence_dict)} for every
+    property id named by a group or a counter.  Shares the translator run with interleaving_check (same scratch)."""
+    A = analyse(scratch, known or {"findings": []})
+    res = {}
+    if not A["ok"]:
+        return {"*": (False, A["log"], {"error": A["log"]})}
+    per = {}
+    for g in A["groups"]:
+        for pid in g["props"]:
+            per.setdefault(pid, {"groups": [], "counters": [], "fail": []})
+            per[pid]["groups"].append(g)
+            if not g["ok"]:
+                per[pid]["fail"] += group_text(g)
+    for c in A["counters"]:
+        rows = [r for r in A["fail_counters"] if r["a"] == c["struct"] and r["b"] == c["field"]]
+        for pid in c["props"]:
+            per.setdefault(pid, {"groups": [], "counters": [], "fail": []})
+            per[pid]["counters"].append(c)
+            per[pid]["fail"] += ["counter %s.%s: only the allowed sync/atomic operations may touch it, but %s" % (c["struct"], c["field"], row_text(r)) for r in rows]
+    for pid, d in per.items():
+        ev = {"groups": [{"name": g["name"], "function": g["fn"], "lock": g["lock"], "section": g["section"], "member_rows": g["rows"],
+                          "ok": g["ok"], "backs": g["why"]} for g in d["groups"]],
+              "counters": [{"field": c["struct"] + "." + c["field"], "backs": c["why"]} for c in d["counters"]],
+              "scoped_rows": len(A["by"]["scoped"]), "failing": d["fail"],
+              "theorems": ["C10_group_atomic", "C10_table_group_atomic", "C10_counter_no_lost_update", "C10_counter_interleaving_independent"],
+              "note": "no automatic search for a failing schedule of a logical race: a failing group is a broken obligation of the model's atomicity granularity"}
+        res[pid] = (not d["fail"], "; ".join(d["fail"][:6]), ev)
+    return res
 
 
 class LocksEngine:
@@ -384,6 +541,7 @@ class LocksEngine:
             other = []
             if A["ok"]:
                 other += [("unknown_ok", r) for r in A["fail_unks"]]
+                other += [("counter_ok", r) for r in A["fail_counters"] if not any(r is f for f in fail_sites)]
                 if include_c06:
                     other += [("acquire_ok", r) for r in A["fail_acqs"]] + [("block_ok", r) for r in A["fail_blks"]]
             # ---- failing-input search for access rows that no known finding explains
@@ -454,7 +612,9 @@ class LocksEngine:
                 path = C.write_replay(pid, seed, len(violations), {
                     "property": pid, "engine": self.name, "kind": "no-failing-input-found",
                     "broken_obligation": "lock-discipline obligations of the table (instance_acquire_ok / instance_block_ok / instance_order / "
-                                         "instance_no_unknown; the first three are the interleaving half of C06) fail on the rows below",
+                                         "instance_no_unknown / instance_counters; the first three are the interleaving half of C06; counter_ok = "
+                                         "a counter field is touched by something else than its allowed sync/atomic operations: lost updates) "
+                                         "fail on the rows below",
                     "rows": [dict(r, obligation=o) for o, r in other], "what": ["%s: %s" % (o, row_text(r)) for o, r in other],
                     "order_acyclic": A.get("order_ok")})
                 violations.append(("no-failing-input-found", path))
@@ -465,8 +625,13 @@ class LocksEngine:
                     "race_report": unexplained[0]["text"][:6000], "count": len(unexplained)})
                 violations.append(("", path))
             # ---- evidence
-            by = A.get("by", {"access": [], "acquire": [], "block": [], "unknown": []})
-            n_rows = sum(len(v) for v in by.values())
+            by = A.get("by", {"access": [], "acquire": [], "block": [], "unknown": [], "scoped": []})
+            n_rows = sum(len(by[k]) for k in ("access", "acquire", "block", "unknown"))
+            groups = A.get("groups", [])
+            inst = [not fail_sites, not A["fail_acqs"], not A["fail_blks"], bool(A.get("order_ok")), not A["fail_unks"],
+                    not A.get("fail_counters")] if A["ok"] else []
+            n_inst = len(inst) + len(groups)
+            n_inst_ok = sum(1 for x in inst if x) + sum(1 for g in groups if g["ok"])
             n_known_rows = sum(len(rs) for (_, rs) in A["known_hit"].values())
             n_bad = len(fail_sites) + len(A["fail_acqs"]) + len(A["fail_blks"]) + len(A["fail_unks"]) + n_known_rows
             samples = [row_text(r) for r in (by["access"][:2] + by["acquire"][:2] + by["block"][:1])]
@@ -475,22 +640,32 @@ class LocksEngine:
             for r in by["access"]:
                 pol[r["a"] + "." + r["b"]] = pol.get(r["a"] + "." + r["b"], 0) + 1
             cov = {
-                "obligations": n_stmt + (n_rows - n_known_rows) + 5,
-                "discharged": (n_stmt if proof_ok else 0) + (n_rows - n_bad) + (5 if A.get("instance_ok") else 0),
+                "obligations": n_stmt + (n_rows - n_known_rows) + n_inst,
+                "discharged": (n_stmt if proof_ok else 0) + (n_rows - n_bad) + n_inst_ok,
                 "checker_cmd": "tools/lockfacts -repo $REPO -out gen ; coqc -Q coq GV gen/LockFacts.v gen/Instance.v (vm_compute) ; "
                                "coqc Locks/Props_C10.v (Print Assumptions)",
                 "trusted_base": TRUSTED,
                 "axioms_reported_by_Print_Assumptions": axioms,
                 "print_assumptions_closed_count": plog.count("Closed under the global context") if proof_ok else 0,
                 "generic_theorems": ["C10_lockset_race_free", "C10_table_race_free", "C06_table_no_wait_cycle",
-                                     "C06_table_blocked_holds_nothing", "C06_table_waiter_reaches_runnable", "C06_order_acyclic"],
-                "instance_theorems_hold": bool(A.get("instance_ok")),
+                                     "C06_table_blocked_holds_nothing", "C06_table_waiter_reaches_runnable", "C06_order_acyclic",
+                                     "C10_group_atomic", "C10_table_group_atomic", "C10_counter_no_lost_update",
+                                     "C10_counter_interleaving_independent", "C10_counter_since_reset"],
+                "atomicity_groups": [{"name": g["name"], "protects": g["props"], "function": g["fn"], "lock": g["lock"],
+                                      "section": g["section"], "member_rows": g["rows"], "ok": g["ok"]} for g in groups],
+                "atomicity_groups_failing": [t for g in groups if not g["ok"] for t in group_text(g)][:20],
+                "atomicity_note": "groups are reported through atomicity_check() to the properties they protect (pool / multiendpoint / gme engines); "
+                                  "C10's own verdict covers data races and the counter policy",
+                "counters": [c["struct"] + "." + c["field"] for c in A.get("counters", [])],
+                "instance_theorems_hold": bool(inst) and all(inst),
+                "instance_theorems_incl_groups_hold": bool(A.get("instance_ok")),
                 "instance_theorems_modulo_known_rows": n_known_rows,
                 "table": {"functions_analysed": len(set(r["func"] for k in by for r in by[k])), "access_rows": len(by["access"]),
                           "acquire_rows": len(by["acquire"]), "block_rows": len(by["block"]), "unknown_rows": len(by["unknown"]),
-                          "tracked_fields_with_rows": len(pol)},
+                          "scoped_rows": len(by.get("scoped", [])), "tracked_fields_with_rows": len(pol)},
                 "failing_rows": {"access": len(fail_sites), "access_known": n_known_rows, "acquire": len(A["fail_acqs"]),
-                                 "block": len(A["fail_blks"]), "unknown": len(A["fail_unks"]), "order_acyclic": A.get("order_ok")},
+                                 "block": len(A["fail_blks"]), "unknown": len(A["fail_unks"]), "order_acyclic": A.get("order_ok"),
+                                 "counter": len(A.get("fail_counters", []))},
                 "evaluations": n_rows,
                 "distinct_nontrivial": len(by["access"]) - sum(1 for r in by["access"] if r["fresh"]),
                 "rule": "one obligation per row of the table regenerated from the working tree (every read/write of a field of the ten "
@@ -515,7 +690,9 @@ class LocksEngine:
             print("%s: %d rows (%d access, %d acquire, %d block, %d unknown), %d failing (%d known), instance %s, proof %s, "
                   "%d race runs / %d reports, %.1fs" % (pid, n_rows, len(by["access"]), len(by["acquire"]), len(by["block"]),
                                                        len(by["unknown"]), n_bad, n_known_rows,
-                                                       "ok" if A.get("instance_ok") else "FAILS", "ok" if proof_ok else "BROKEN",
+                                                       ("ok" if inst and all(inst) else "FAILS") + " (atomicity groups %d/%d ok)" % (
+                                                           sum(1 for g in groups if g["ok"]), len(groups)),
+                                                       "ok" if proof_ok else "BROKEN",
                                                        race_runs, race_reports, time.time() - t0))
             return 1 if violations else 0
         finally:
@@ -572,3 +749,35 @@ def SETUP():
         print(out[-3000:]); print("coq/Locks build failed")
         return 1
     return 0
+
+
+def write_ref_facts():
+    """maintenance: regenerate coq/Locks/RefFacts.v (committed regression copy) from the current tree:
+    python3 tools/eng_locks.py --write-ref"""
+    ok, out = build_translator()
+    if not ok:
+        print(out); return 1
+    sc = tempfile.mkdtemp(prefix="verif-ref-")
+    try:
+        ok, log, rows = make_table(sc)
+        if not ok:
+            print(log); return 1
+        g = os.path.join(sc, "gen")
+        body = lambda f: re.sub(r"^(\(\*.*?\*\)|From .*|Import .*|Open Scope .*|Require .*)\n", "", open(os.path.join(g, f)).read(), flags=re.M)
+        head = subprocess.run(["git", "-C", C.REPO, "rev-parse", "--short", "HEAD"], stdout=subprocess.PIPE, text=True).stdout.strip()
+        txt = ("(* Reference copy of the tables generated by tools/lockfacts from %s at %s.\n"
+               "   Regression/example input only: the checks always use the tables REGENERATED from the working tree. *)\n"
+               "From Coq Require Import String List.\nFrom GV Require Import Locks.Tables.\nImport ListNotations.\nOpen Scope string_scope.\n\n"
+               % (C.REPO, head)) + body("LockFactsStr.v") + body("LockFactsA.v") + body("LockFactsS.v")
+        open(os.path.join(C.COQ, "Locks", "RefFacts.v"), "w").write(txt)
+        print("wrote coq/Locks/RefFacts.v (%d rows)" % len(rows))
+        return 0
+    finally:
+        shutil.rmtree(sc, ignore_errors=True)
+
+
+if __name__ == "__main__":
+    import sys
+    if "--write-ref" in sys.argv:
+        sys.exit(write_ref_facts())
+
